@@ -91,13 +91,25 @@ def run_config(ctx, c, rng, dtype, usebuf, events, meta, order_seed=None):
         emit(res.values, pairs)
         return
     # isolate the failing pair(s): one job per ordered pair
+    anyfail = False
     for pr in pairs:
         r1 = MPI.run(n, sl.transpose_job, policy=policy, seed=seed, eager=eager,
                      args=(shape, nprocs, layouts, [pr], usebuf, dtype))
         if r1.ok:
             emit(r1.values, [pr])
         else:
+            anyfail = True
             emit(None, [pr], err=r1.describe())
+    if not anyfail:
+        # every transpose succeeds on a fresh handler, but the SEQUENCE on one handler failed: the handler carries state from
+        # earlier calls.  Find the shortest failing prefix and report its last call.
+        for k in range(2, len(pairs) + 1):
+            rk_ = MPI.run(n, sl.transpose_job, policy=policy, seed=seed, eager=eager, args=(shape, nprocs, layouts, pairs[:k], usebuf, dtype))
+            if not rk_.ok:
+                emit(None, [pairs[k - 1]], err="after the calls %s on the same handler: %s" % (pairs[:k - 1], rk_.describe()))
+                break
+        else:
+            emit(None, [pairs[-1]], err="sequence of all pairs on one handler: " + res.describe())
 
 
 def signature(e, m, clauses):
@@ -107,7 +119,8 @@ def signature(e, m, clauses):
     lead1 = len(nprocs) == 2 and nprocs[0] == 1 and nprocs[1] > 1
     sig = {"kind": "transpose", "clause": clauses[0], "leading_extent_1": bool(lead1),
            "changes_pos_0_and_1": bool(len(a) > 1 and a[0] != b[0] and a[1] != b[1]),
-           "raises": (e.get("err", "").split(" raised ")[-1].split(":")[0] if not e["ok"] else "")}
+           "raises": (e.get("err", "").split(" raised ")[-1].split(":")[0] if not e["ok"] else ""),
+           "history_dependent": bool("on the same handler" in e.get("err", "") or "one handler" in e.get("err", ""))}
     return sig
 
 
